@@ -33,21 +33,42 @@ prop('C04', prefix=['c04'], bounds=UM_BOUNDS + '; arguments unconstrained (any i
      outside=UM_OUT + '; operations taking text that needs parsing')
 prop('C28', prefix=['c01', 'c28'], bounds=UM_BOUNDS + '; selection setters with unconstrained arguments',
      outside='keyboard navigation / page up-down (pixel arithmetic over float sums), duplicate_sheet (parser), operations on sheets with cells')
+prop('C05', prefix=['c05'],
+     bounds='one sheet: a number cell A1 (any finite f64), the chain B1 = A1+1, C1 = B1+A1 typed before the cells it reads, two cycles (A2 = B2+1 / B2 = A2*2 and '
+            'A3 = C3 / C3 = A3), a reader of a cycle (C2 = A2), a formula off every cycle (A4); Model::evaluate run from its MIR, a second pass, then A1 '
+            'replaced by another finite f64 and A4 by =A1+A1 and evaluated again; values read with get_cell_value_by_index',
+     outside='longer chains and cycles, ranges, names, spills and dynamic arrays (two-phase evaluation), cross-sheet dependencies, functions, '
+             'the converse "shows #CIRC! only if on a cycle" beyond these cells')
+prop('C06', prefix=['c06'],
+     bounds='two input cells A1, B1, each a number / boolean / empty / the text abc / the error #N/A (solver chooses), one formula in C1 typed through the real '
+            'parser and evaluated by the real evaluator from MIR: A1+B1 and A1-B1 with any two finite f64 (overflow -> #NUM!); A1*B1, A1/B1, A1%, A1&B1 and the six '
+            'comparisons with numbers from {0, 1.5, -2, 1e200, 4}; -A1, IF(A1,B1,7), AND, OR, NOT, SUM(A1:B1), COUNT, COUNTA, ISNUMBER, ISTEXT, ISBLANK, '
+            'IFERROR(A1,9) with any finite f64; reference rules written in the harness: booleans count as 1/0 and empty as 0 in arithmetic, text is #VALUE!, '
+            'the left error wins, numbers < text < booleans in comparisons with empty taking the other side\'s type, ranges skip text/booleans/empties in SUM '
+            'and COUNT, AND/OR scan left to right and stop at the deciding value (the engine\'s documented short circuit - Excel would still report an '
+            'error behind it)',
+     outside='^ (powf), MIN/MAX/AVERAGE/ABS/ROUND/LEN/CONCAT, literals as operands, strings that look like numbers, comparison of numbers that differ '
+             'beyond 15 significant digits, nested formulas, arrays and broadcasting, other text than abc, other errors than #N/A')
 prop('C08', prefix=['c08'],
      bounds='Model::set_cells_with_result on a formula cell of each kind (plain, CSE anchor over <=2x2 with its spill cells, dynamic anchor) with a result that is any '
             'f64 (NaN and infinities included) or an array of 1x1..2x2 such numbers',
      outside='whether a built-in function can produce a non-finite value in the first place (the ~495 functions), numbers typed by the user or read from files, '
              'strings/booleans/errors in arrays; the check decides: if a non-finite value reaches the store, is it stored?')
 prop('C09', prefix=['c09'],
-     bounds='operator trees of depth two: (a op1 b) op2 c and a op2 (b op1 c) for every pair of + - * / ^ & = <, unary minus and percent over a binary operator, '
-            'unary minus / percent on an operand; leaves: a relative reference and the number 2; printed by to_rc_format (stored form) and to_localized_string '
-            '(display form, en) and parsed back by the real lexer + parser; value-preserving re-associations (a+(b+c), a+(b-c), a&(b&c), -(a*b), -(a/b)) are not demanded',
-     outside='deeper trees, functions, ranges, sheet-qualified references, arrays, LAMBDA/LET, implicit intersection, the xlsx export form, other languages/locales')
+     bounds='(a) operator trees of depth two built directly: (a op1 b) op2 c and a op2 (b op1 c) for every pair of + - * / ^ & = <, unary minus and percent over a '
+            'binary operator, unary minus / percent on an operand; leaves: a relative reference and the number 2; (b) formulas assembled as text and parsed first: '
+            '<leaf><op><leaf>, -<leaf>, <leaf>% with leaves A1 / $B$2 / Sheet1!C$3 / Ghost!A1 / A1:B2 / $A:$B / 2:3 / 1.5 / "a""b" / TRUE / #N/A / {1,2;3,4} and the 13 '
+            'binary operators incl. the range operator; (c) function calls (real English function table): SUM(a,b), IF(a op b,a,b), SUM(a) op b, a op MAX(b,2), '
+            '-SUM(a op b), IF(AND(a,PI()>3),b%,NOT(a)) with 6 argument texts and 6 operators.  All printed by to_rc_format (stored form) and to_localized_string '
+            '(display form, en) and parsed back by the real lexer + parser; value-preserving re-associations (a+(b+c), a+(b-c), a&(b&c), -(a*b), -(a/b), a:(b:c)) '
+            'are not demanded; texts the parser rejects are skipped',
+     outside='deeper trees, other functions, LAMBDA/LET, implicit intersection and spill operators, numbers that print in scientific notation, the xlsx export form, '
+             'other languages/locales')
 prop('C11', prefix=['c11'],
-     bounds='every ASCII string of length <=3 through the real formula lexer in A1 and R1C1 mode (en locale/language) until EOF; `$` + 1..=10 arbitrary upper-case letters + `1` through the lexer; and through the '
+     bounds='every ASCII string of length <=3 through the real formula lexer in A1 and R1C1 mode (en locale/language) until EOF; `$` + 1..=10 arbitrary upper-case letters + `1` through the lexer; every ASCII string of length <=3 through the real formula parser (A1 mode; R1C1 mode in the thorough tier; function names looked up in the real English table); and through the '
             'number-format lexer + parser and the date-format detector; length <=4 through column_to_number, parse_reference_a1/r1c1, is_valid_identifier, '
             'is_valid_column, quote_name.  The number recogniser (C19) and the F4 kernel (C34) are panic-checked by their own harnesses',
-     outside='the formula parser, formula completion, set_user_input on the models, the number formatter (float to digits), non-ASCII text, longer strings, '
+     outside='formula completion, set_user_input on the models, printing of arbitrary parse results, the number formatter (float to digits), non-ASCII text, longer strings, '
              'other locales/languages')
 prop('C12', prefix=['c12'],
      bounds='references: row/column/position/count any i32 inside the grid, sheet indices any u32; ranges: corners, context, position, count in '
@@ -229,7 +250,7 @@ def main():
         return 2
     eng = run.load([(b['mir'], b['src'])], [(os.path.join(b['src'], 'src'), '')], {})
     out = tempfile.mkdtemp(prefix='icverif-run-', dir='/var/tmp')
-    budget = 900 if tier == 'quick' else 3300
+    budget = 1500 if tier == 'quick' else 3300
     try:
         res = run.explore(eng, names, out, jobs=15, deadline=time.time() + budget)
     finally:
